@@ -205,7 +205,9 @@ impl Ctx {
 pub fn protocol_out() -> std::fs::File {
     use std::os::fd::FromRawFd;
     unsafe {
-        let fd = libc::dup(1);
+        // close-on-exec: processes started by a run (the real naija binary and its children) must not
+        // inherit the protocol pipe, or the parent would wait for them instead of for the worker
+        let fd = libc::fcntl(1, libc::F_DUPFD_CLOEXEC, 3);
         let devnull = std::ffi::CString::new("/dev/null").unwrap();
         let n = libc::open(devnull.as_ptr(), libc::O_WRONLY);
         libc::dup2(n, 1);
